@@ -1,56 +1,13 @@
 // ================= spec: the contract of the real `put` (unit U-store) refines the abstract `put_spec` / `head_spec` of spec/putspec.rs =================
 // Included by U-store only (uses its `dominated`, `pruned`, RecId, RecVal, LatestKey, LatestVal). The lemmas are called from the derived-contract
 // check `put__shellcheck` (//@shellcheck prelude/put_shell.rs), whose hypotheses are the verified postcondition of `put`, copied by the tool.
-// ---- the link to the abstract replica of spec/putspec.rs (used by the join lemmas of L-join): machine-checked here, on the real `put` ----
-/// the records of one namespace as the abstract replica: (author, key) -> (timestamp, hash)
-spec fn proj(records: Map<RecId, RecVal>, ns: Seq<u8>) -> Rep {
-    Map::new(records.dom().filter(|k: RecId| k.ns == ns).map(|k: RecId| Slot { author: k.author, key: k.key }),
-             |s: Slot| Val { ts: records[RecId { ns: ns, author: s.author, key: s.key }].ts, hash: records[RecId { ns: ns, author: s.author, key: s.key }].hash })
-}
-proof fn lemma_proj_dom(records: Map<RecId, RecVal>, ns: Seq<u8>, s: Slot)
-    ensures proj(records, ns).contains_key(s) <==> records.contains_key(RecId { ns: ns, author: s.author, key: s.key })
-{
-    let d = records.dom().filter(|k: RecId| k.ns == ns);
-    let f = |k: RecId| Slot { author: k.author, key: k.key };
-    let k0 = RecId { ns: ns, author: s.author, key: s.key };
-    if d.map(f).contains(s) {
-        let k = choose|k: RecId| #![trigger d.contains(k)] d.contains(k) && f(k) == s;
-        assert(d.contains(k) && f(k) == s);
-        assert(k == k0);
-    }
-    if records.contains_key(k0) {
-        assert(d.contains(k0) && f(k0) == s);
-        assert(d.map(f).contains(s));
-    }
-}
-/// the per-author heads of one namespace as the abstract heads: author -> greatest timestamp
-spec fn hproj(latest: Map<LatestKey, LatestVal>, ns: Seq<u8>) -> Heads {
-    Map::new(latest.dom().filter(|k: LatestKey| k.ns == ns).map(|k: LatestKey| k.author), |a: Seq<u8>| latest[LatestKey { ns: ns, author: a }].ts)
-}
-proof fn lemma_hproj_dom(latest: Map<LatestKey, LatestVal>, ns: Seq<u8>, a: Seq<u8>)
-    ensures hproj(latest, ns).contains_key(a) <==> latest.contains_key(LatestKey { ns: ns, author: a })
-{
-    let d = latest.dom().filter(|k: LatestKey| k.ns == ns);
-    let f = |k: LatestKey| k.author;
-    let k0 = LatestKey { ns: ns, author: a };
-    if d.map(f).contains(a) {
-        let k = choose|k: LatestKey| #![trigger d.contains(k)] d.contains(k) && f(k) == a;
-        assert(d.contains(k) && f(k) == a);
-        assert(k == k0);
-    }
-    if latest.contains_key(k0) {
-        assert(d.contains(k0) && f(k0) == a);
-        assert(d.map(f).contains(a));
-    }
-}
-spec fn ent_of(e: EntryV) -> Ent { Ent { author: e.id.author, key: e.id.key, val: Val { ts: e.val.ts, hash: e.val.hash } } }
-
+// (projections: spec/put_proj.rs)
 proof fn lemma_put_dominated_agrees(r0: Map<RecId, RecVal>, e: EntryV)
-    ensures dominated(r0, e) <==> dominated_in(proj(r0, e.id.ns), ent_of(e))
+    ensures dominated(r0, e) <==> dominated_in(proj(r0, e.id.ns), ent_of_entry(e))
 {
     let ns = e.id.ns;
     let a0 = proj(r0, ns);
-    let ee = ent_of(e);
+    let ee = ent_of_entry(e);
     assert forall|s: Slot| #[trigger] a0.contains_key(s) <==> r0.contains_key(RecId { ns: ns, author: s.author, key: s.key }) by { lemma_proj_dom(r0, ns, s); }
     // dominated <==> dominated_in
     if dominated(r0, e) {
@@ -76,12 +33,12 @@ proof fn lemma_put_is_put_spec(r0: Map<RecId, RecVal>, r1: Map<RecId, RecVal>, e
         inserted ==> (forall|k: RecId| #[trigger] r1.contains_key(k) <==> (k == e.id || (r0.contains_key(k) && !pruned(r0, e, k)))),
         inserted ==> r1[e.id] == e.val && (forall|k: RecId| k != e.id && #[trigger] r1.contains_key(k) ==> r1[k] == r0[k]),
     ensures
-        proj(r1, e.id.ns) =~= put_spec(proj(r0, e.id.ns), ent_of(e)),
+        proj(r1, e.id.ns) =~= put_spec(proj(r0, e.id.ns), ent_of_entry(e)),
         forall|ns2: Seq<u8>| ns2 != e.id.ns ==> #[trigger] proj(r1, ns2) =~= proj(r0, ns2),
 {
     let ns = e.id.ns;
     let a0 = proj(r0, ns);
-    let ee = ent_of(e);
+    let ee = ent_of_entry(e);
     assert forall|n: Seq<u8>, s: Slot| #[trigger] proj(r0, n).contains_key(s) <==> r0.contains_key(RecId { ns: n, author: s.author, key: s.key }) by { lemma_proj_dom(r0, n, s); }
     assert forall|n: Seq<u8>, s: Slot| #[trigger] proj(r1, n).contains_key(s) <==> r1.contains_key(RecId { ns: n, author: s.author, key: s.key }) by { lemma_proj_dom(r1, n, s); }
     lemma_put_dominated_agrees(r0, e);
@@ -120,10 +77,10 @@ proof fn lemma_heads_is_head_spec(l0: Map<LatestKey, LatestVal>, l2: Map<LatestK
             &&& (forall|k2: LatestKey| #![trigger l2.contains_key(k2)] k2 != k ==> (l2.contains_key(k2) == l0.contains_key(k2) && (l0.contains_key(k2) ==> l2[k2] == l0[k2])))
         }),
     ensures
-        hproj(l2, e.id.ns) =~= head_spec(hproj(l0, e.id.ns), proj(r0, e.id.ns), ent_of(e)),
+        hproj(l2, e.id.ns) =~= head_spec(hproj(l0, e.id.ns), proj(r0, e.id.ns), ent_of_entry(e)),
 {
     let ns = e.id.ns;
-    let ee = ent_of(e);
+    let ee = ent_of_entry(e);
     lemma_put_dominated_agrees(r0, e);
     assert forall|a: Seq<u8>| #[trigger] hproj(l0, ns).contains_key(a) <==> l0.contains_key(LatestKey { ns: ns, author: a }) by { lemma_hproj_dom(l0, ns, a); }
     assert forall|a: Seq<u8>| #[trigger] hproj(l2, ns).contains_key(a) <==> l2.contains_key(LatestKey { ns: ns, author: a }) by { lemma_hproj_dom(l2, ns, a); }
